@@ -23,29 +23,32 @@ LEVEL = "exploration"
 SHARDS = {"quick": 8, "thorough": 16}
 BUDGET = {"quick": 25.0, "thorough": 400.0}
 REQUIRE = {
-    "renders_judged": 20000,
-    "clause_slice": 20000,
-    "clause_slice_scrolled(p>0)": 3000,
-    "clause_slice_blank_padded_rows": 500,
-    "clause_slice_narrow_or_trimmed_cols": 300,
-    "clause_pos": 20000,
-    "clause_bar_present": 3000,
-    "clause_bar_absent": 1000,
-    "clause_parts": 3000,
-    "clause_top0_at_p0": 500,
-    "clause_top>0_at_p>0": 1500,
-    "clause_monotone_pairs": 3000,
-    "clause_handed_width": 3000,
-    "clause_handled_key_p_unchanged": 100,
-    "clause_handled_mouse_p_unchanged": 50,
+    "renders_judged": 10000,
+    "clause_slice": 10000,
+    "clause_slice_scrolled(p>0)": 5000,
+    "clause_slice_blank_padded_rows": 1000,
+    "clause_slice_narrow_or_trimmed_cols": 400,
+    "clause_pos": 10000,
+    "clause_bar_present": 5000,
+    "clause_bar_absent": 800,
+    "clause_parts": 5000,
+    "clause_top0_at_p0": 1200,
+    "clause_top>0_at_p>0": 4000,
+    "clause_monotone_pairs": 30000,
+    "clause_handed_width": 2000,
+    "clause_handled_key_p_unchanged": 150,
+    "clause_handled_mouse_p_unchanged": 100,
     "ops:key": 3000,
-    "ops:mouse": 1000,
+    "ops:mouse": 1500,
     "ops:setpos": 2000,
-    "ops:resize": 1000,
-    "ops:content": 1000,
+    "ops:resize": 300,
+    "ops:content": 500,
     "kind:S": 200,
-    "kind:SB": 200,
+    "kind:SB": 300,
     "kind:LB": 100,
+    "reach:widget.scrollable.Scrollable._adjust_trim_top": 5000,
+    "reach:widget.scrollable.ScrollBar.render": 5000,
+    "reach:widget.listbox.ListBox.get_scrollpos": 1000,
 }
 RULE = (
     "case = (content recipe, wrapper options, view size, focus flag, op list); content in {Text of unique words, RowSpy, "
@@ -58,7 +61,9 @@ RULE = (
 )
 ASSUMES = [
     "'full rendering' = the wrapped widget's own render() at the width it must be handed (flow: (cols,), fixed: ()), with the same focus flag; for ListBox the concatenation of the item renderings",
-    "'content has more rows than the view' is judged at the width the wrapped widget is actually handed; generated content never has more rows at a wider width",
+    "'content has more rows than the view' is judged at the width the wrapped widget is actually handed (bar drawn: view width - bar width, else view width); in the circular case where the content is taller than the view at full width but fits beside the bar (urwid.Text can have MORE rows at a wider width) no arrangement is self-consistent and a bar beside fitting content is accepted",
+    "the harness keeps the last rendered frame alive (as a display module does), so CanvasCache hits are part of what is judged; spies are cacheable like ordinary widgets",
+    "after an exception out of render() the history continues from a clean slate (held frame dropped, top widget invalidated), at most 3 exceptions per history",
     "when several offsets p match (repeated rows) the reported position only has to be one of them",
     "a view not wider than the bar (w <= bar width) cannot satisfy the statement at all; only 'renders a canvas of the view size without raising' is judged there",
     "'handled events are not also used for scrolling' is judged only for events a spy reported as handled while the wrapped content shows no cursor (Scrollable's follow-the-cursor adjustment after an Edit consumed a key is not counted as scrolling by that key)",
@@ -100,6 +105,7 @@ class Session:
         self.lastop = None
         self.epoch = 0
         self.fullcache = {}
+        self.held = self.last_canv = self.last_tp = None
         self.build(case["content"], wrap)
 
     # ------------------------------------------------------------ construction
@@ -306,8 +312,21 @@ class Session:
         """mechanism signature of an exception: one per abstract shape of the view, not per op / wrapped class"""
         if self.kind != "S" and self.w <= self.bw:
             return "C20|ScrollBar|view-width<=bar-width|raises"  # child handed <= 0 columns, whatever blows up first
-        if self.kind != "S" and self.h == 1 and where == "render":
-            return f"C20|ScrollBar|render|one-row-view|raise:{type(e).__name__}"
+        if self.kind != "S" and where == "render":
+            m = re.search(r"<ScrollBar .* rendered \((\d+) x (\d+)\) canvas when passed size \((\d+), (\d+)\)", str(e), re.S)
+            if m and int(m.group(1)) == int(m.group(3)) and int(m.group(2)) > int(m.group(4)):
+                # the bar column came out taller than the view; name the situation it happened in
+                try:
+                    total = self.full(self.w - self.bw)[1]
+                except Exception:  # noqa: BLE001
+                    total = None
+                if self.h == 1:
+                    shape = "one-row-view"
+                elif total is not None and total <= self.h:
+                    shape = "content-fits-at-handed-width"
+                else:
+                    shape = "content-taller-than-view"
+                return f"C20|ScrollBar|render|bar-taller-than-view|{shape}|raise:{type(e).__name__}"
         return f"C20|{self.topname}|{where}|ordinary-view|raise:{type(e).__name__}"
 
     # ------------------------------------------------------------ oracle
@@ -382,11 +401,16 @@ class Session:
         mark = len(self.log)
         try:
             canv = self.top.render((w, h), focus)
+            self.held = canv  # like the display module, keep the last frame alive so CanvasCache (weak refs) really serves hits
             shown = canvas_rows(canv)
         except Exception as e:  # noqa: BLE001
             self.nexc += 1
             if not self.listbox_internal(e):
                 self.viol(self.exc_sig("render", e), f"{type(e).__name__}: {e}\n{traceback.format_exc(limit=5)}")
+            # a real program would have died here; the history goes on from a clean slate (no frame kept from
+            # before the failed render, nothing cached for the top widget)
+            self.held = None
+            self.top._invalidate()
             return None
         spy_renders = {}
         for e in self.log[mark:]:
@@ -418,7 +442,12 @@ class Session:
             B = self.match(region, w - bw)
             shape_ok = re.fullmatch(r"t*T*t*", barseq) is not None
             okA = bool(A["P"]) and A["total"] <= h
-            okB = bool(B["P"]) and B["total"] > h and "?" not in barseq
+            # circular case (content taller than the view at full width but not at width - bar): no arrangement is
+            # self-consistent, a bar beside fitting content is accepted there
+            circular = A["total"] > h >= B["total"]
+            if circular:
+                self.c("bar_circular_case(taller-at-full-width-only)")
+            okB = bool(B["P"]) and (B["total"] > h or circular) and "?" not in barseq
             if okB and (not okA or "T" in barseq):
                 drawn, m = True, B
                 self.c("clause_bar_present")
@@ -511,20 +540,27 @@ class Session:
                 if self.kind == "LB":
                     mode = "|relative-mode" if self.lb.require_relative_scroll((w, h), focus) else "|row-mode"
                 self.viol(f"C20|{self.topname}|thumb-top|{how}{mode}", f"bar={barseq!r} p={p} P={P} total={total} h={h}")
+            # the very same canvas object as the previous frame although total rows / offset changed: the ScrollBar
+            # canvas was served from CanvasCache across a change that happened off screen (classification only)
+            stale = canv is self.last_canv and (total, p) != self.last_tp
+            if stale:
+                self.c("bar_frame_from_cache_although_total_or_offset_changed")
             if len(P) == 1:
                 fp = (hash(tuple(m["full"])), w, h, bw, focus)
                 tab = self.memo.setdefault(fp, {})
-                for p2, top2 in tab.items():
+                for p2, (top2, stale2) in tab.items():
                     if p2 != p:
                         self.c("clause_monotone_pairs")
                         if (p2 < p and top2 > top) or (p2 > p and top2 < top):
+                            why = "|bar-cached-across-off-screen-content-change" if (stale or stale2) else ""
                             self.viol(
-                                f"C20|{self.topname}|thumb-not-monotone",
+                                f"C20|{self.topname}|thumb-not-monotone{why}",
                                 f"same content/size: p={p2} -> top={top2}, p={p} -> top={top} (h={h}, total={total})",
                             )
                     elif top2 != top:
                         self.c("same_p_different_top")
-                tab[p] = top
+                tab[p] = (top, stale)
+        self.last_canv, self.last_tp = canv, (total, p)
         return {"P": P, "total": total, "cursor": m["cursor"], "fp": (hash(tuple(m["full"])), w, h, bw), "drawn": drawn}
 
 
@@ -617,6 +653,22 @@ def core_cases(quick):
                 out.append(
                     {"content": ["rowspy", 0, h + extra, False, [], []], "wrap": wrap, "size": [w, h], "focus": False, "ops": [["sweep", "pos"], ["sweep", "keys"]]}
                 )
+    # events the wrapped spy reports as handled, from a scrolled position where every one of them could scroll
+    allkeys = ["up", "down", "page up", "page down", "home", "end"]
+    evs = [["setpos", 2]] + [op for k in allkeys for op in (["key", k], ["setpos", 2])]
+    evs += [["mouse", "mouse press", 5, 0, 0], ["mouse", "mouse press", 4, 0, 0], ["mouse", "mouse press", 5, 1, 1]]
+    for kind in ("S", "SB"):
+        for h in (2, 3, 5):
+            for shape in ("rowspy", "pile", "fixedspy"):
+                spy = ["rowspy", 0, h + 5, True, allkeys, [4, 5]]
+                if shape == "pile":
+                    content = ["pile", [spy, ["rowspy", 50, 2, False, [], []]], 0]
+                elif shape == "fixedspy":
+                    content = ["fixedspy", 0, 4, h + 5, True, allkeys, [4, 5]]
+                else:
+                    content = spy
+                wrap = {"kind": kind, "side": "left", "bw": 1, "thumb": "#", "trough": "."}
+                out.append({"content": content, "wrap": wrap, "size": [6, h], "focus": True, "ops": evs})
     for h in range(1, 9):
         for nitems in (h + 1, 2 * h + 1, 3 * h + 1, 3 * h + 4, 30):
             for rows_each in (1, 2, 3):
